@@ -17,6 +17,8 @@ import (
 	"encoding/binary"
 	"encoding/json"
 	"fmt"
+	"os"
+	"path/filepath"
 	"strings"
 	"time"
 
@@ -320,6 +322,74 @@ func c11Boundary(res *vlib.Result, viaHandshake bool) {
 			res.Outcome("boundary-not-aligned")
 		}
 	}
+}
+
+// c11VerifyHistory: standalone verification is a function of (token, the verifier's keys and
+// limits, now) - not of what was verified before. Sequences of VerifyIDToken calls with
+// three verifier configurations (the usual one; one whose key directory holds a DIFFERENT
+// key under the name k1; one with a much shorter maximum age) over three tokens; every
+// call is judged by the reference for ITS configuration.
+func c11VerifyHistory(res *vlib.Result) {
+	e := getTokenEnv()
+	now := time.Now().Unix()
+	claims := func(iat int64) map[string]any {
+		return map[string]any{"sub": "alice@verif.domain", "iss": "verif.domain", "iat": iat, "exp": now + 3600, "jti": "0123456789abcdef"}
+	}
+	toks := []struct{ name, tok string }{
+		{"k1-fresh", mintToken(e.K1, "k1", map[string]any{"alg": "HS256", "typ": "JWT", "kid": "k1"}, claims(now-10))},
+		{"k1-1000s-old", mintToken(e.K1, "k1", map[string]any{"alg": "HS256", "typ": "JWT", "kid": "k1"}, claims(now-1000))},
+		{"pool-1000s-old", mintToken(e.PoolKey, "POOL", nil, claims(now-1000))},
+	}
+	// a second key directory: same name k1, different key
+	otherDir := filepath.Join(e.Dir, "keys-other")
+	_ = os.MkdirAll(otherDir, 0o700)
+	_ = os.WriteFile(filepath.Join(otherDir, "k1"), scramble([]byte("another_named_key_k1_32_bytes!!!")), 0o600)
+	type vcfg struct {
+		name    string
+		cfg     *security.SecurityConfig
+		k1Match bool
+		maxAge  int64
+	}
+	mk := func(dir string, maxAge int) *security.SecurityConfig {
+		_, sc := c11Cfgs("")
+		sc.TokenSigningKeyDir, sc.TokenMaxAge = dir, maxAge
+		return sc
+	}
+	cfgs := []vcfg{
+		{"usual", mk(e.KeyDir, c11MaxAge), true, c11MaxAge},
+		{"other-k1-key", mk(otherDir, c11MaxAge), false, c11MaxAge},
+		{"max-age-500", mk(e.KeyDir, 500), true, 500},
+	}
+	want := func(ti, ci int) bool {
+		if ti < 2 && !cfgs[ci].k1Match {
+			return false // signed by a k1 this verifier does not hold
+		}
+		age := int64(10)
+		if ti >= 1 {
+			age = 1000
+		}
+		return age <= cfgs[ci].maxAge
+	}
+	// all sequences of two calls (first call may "warm" whatever the verifier remembers)
+	for t1 := range toks {
+		for c1 := range cfgs {
+			for t2 := range toks {
+				for c2 := range cfgs {
+					res.Evals++
+					res.Nontrivial++
+					_, e1 := security.VerifyIDToken(toks[t1].tok, cfgs[c1].cfg)
+					_, e2 := security.VerifyIDToken(toks[t2].tok, cfgs[c2].cfg)
+					for k, got := range []bool{e1 == nil, e2 == nil} {
+						ti, ci := []int{t1, t2}[k], []int{c1, c2}[k]
+						if got != want(ti, ci) {
+							res.Violate(fmt.Sprintf("C11/verify-depends-on-history/%s/%s", toks[ti].name, cfgs[ci].name), "call %d of [verify(%s, %s); verify(%s, %s)]: accepted=%v, the reference for that verifier says %v", k+1, toks[t1].name, cfgs[c1].name, toks[t2].name, cfgs[c2].name, got, want(ti, ci))
+						}
+					}
+				}
+			}
+		}
+	}
+	res.Outcome("verify-history-ok")
 }
 
 // c11Fallback: both sides list TOKEN and SSL. When the token exchange fails and the
@@ -657,7 +727,7 @@ func c11Verify(res *vlib.Result, label, class, tok string) {
 func C11Plan() *vlib.Plan {
 	p := &vlib.Plan{
 		Property: "C11", Level: "fault_enumeration",
-		Rule:   "E-FAULT: (1) 20 token variants and every single-bit flip of a valid token string, each through a real client/server TOKEN handshake (no cipher, so the AKEP2 result is the result); (2) for each of the three AKEP2 messages: every byte offset (header and payload) x {^01,^80}, truncation at every 8th byte, 1/8 trailing bytes appended, for step 1 a field-aware substitution of the claimed client identity by {bob, empty, +1 char}, and field-aware alterations of every field of every message (status := 1/-1/2/256; each proof, nonce and nonce echo := empty / first byte only / last byte dropped / one zero byte added / all zero / length 0 or length-1 with the bytes kept; each identity echo := empty / bob / +1 char); (3) VerifyIDToken on the same variants and bit flips; (4) an independent scripted AKEP2 client (own HKDF/HMAC arithmetic) against the real server: 20 token variants (incl. those cedar's client refuses to send) x claimed identity {the subject, bob, root} x proof {honest, empty, wrong, computed over the identity the server echoed} x RB echo {honest, empty, wrong} x {no, one} trailing byte; (5) time claims AT their limits (exp = now-1 / now / now+1, iat = now / now-max / now-max-1) through VerifyIDToken and through the scripted client, each call aligned on a wall-clock second and kept only if the clock still shows that second afterwards; (6) every token variant with TOKEN and SSL listed on both sides: when the token exchange fails and SSL completes the handshake, the failed token's subject must not become the session's identity. Oracle: independent HKDF+HMAC verifier with the same time rules (variants sit 120 s away from the limits); server success => token valid and no client message altered outside the claimed-identity field; client success => server message unaltered; recorded user = token subject. Non-trivial = the mutated element reached the receiving side.",
+		Rule:   "E-FAULT: (1) 20 token variants and every single-bit flip of a valid token string, each through a real client/server TOKEN handshake (no cipher, so the AKEP2 result is the result); (2) for each of the three AKEP2 messages: every byte offset (header and payload) x {^01,^80}, truncation at every 8th byte, 1/8 trailing bytes appended, for step 1 a field-aware substitution of the claimed client identity by {bob, empty, +1 char}, and field-aware alterations of every field of every message (status := 1/-1/2/256; each proof, nonce and nonce echo := empty / first byte only / last byte dropped / one zero byte added / all zero / length 0 or length-1 with the bytes kept; each identity echo := empty / bob / +1 char); (3) VerifyIDToken on the same variants and bit flips; (4) an independent scripted AKEP2 client (own HKDF/HMAC arithmetic) against the real server: 20 token variants (incl. those cedar's client refuses to send) x claimed identity {the subject, bob, root} x proof {honest, empty, wrong, computed over the identity the server echoed} x RB echo {honest, empty, wrong} x {no, one} trailing byte; (5) time claims AT their limits (exp = now-1 / now / now+1, iat = now / now-max / now-max-1) through VerifyIDToken and through the scripted client, each call aligned on a wall-clock second and kept only if the clock still shows that second afterwards; (6) every token variant with TOKEN and SSL listed on both sides: when the token exchange fails and SSL completes the handshake, the failed token's subject must not become the session's identity; (7) all pairs of successive VerifyIDToken calls over 3 tokens x 3 verifier configurations (usual; another key under the same key id; shorter maximum age): each verdict is that of the reference for its own configuration, whatever was verified before. Oracle: independent HKDF+HMAC verifier with the same time rules (variants sit 120 s away from the limits); server success => token valid and no client message altered outside the claimed-identity field; client success => server message unaltered; recorded user = token subject. Non-trivial = the mutated element reached the receiving side.",
 		Assume: []string{"base64 decoding is shared with the code (non-canonical trailing bits that decode identically are the same token)", "time-dependent variants are 120 s away from the boundary"},
 	}
 	p.Gen = func(tier string, yield func(vlib.Case)) {
@@ -697,6 +767,11 @@ func C11Plan() *vlib.Plan {
 				return res
 			}})
 		}
+		yield(vlib.Case{ID: "verify-history", Run: func() *vlib.Result {
+			res := &vlib.Result{}
+			c11VerifyHistory(res)
+			return res
+		}})
 		yield(vlib.Case{ID: "time-boundary/verify", Run: func() *vlib.Result {
 			res := &vlib.Result{}
 			c11Boundary(res, false)
